@@ -59,7 +59,9 @@ impl Edits {
             if e.start < pos {
                 // inside a region already replaced: fine when that region was deleted outright
                 // (e.g. attribute removal inside a cfg-removed statement), otherwise ambiguous.
-                if last_was_deletion && e.end <= pos {
+                // or was replaced wholesale by an explicit `replace` (automatic token edits inside it yield).
+                let _ = last_was_deletion;
+                if e.end <= pos {
                     continue;
                 }
                 return Err(format!("overlapping edits near byte {}", e.start));
